@@ -1,5 +1,5 @@
 Require Extraction.
 Require Import ExtrOcamlBasic.
-From HV Require Import Log.Filter Log.LogView.
+From HV Require Import Log.Filter Log.LogView Log.FilterSyntax.
 Extraction Language OCaml.
-Extraction "c18_model.ml" eval ctrace init.
+Extraction "c18_model.ml" eval ctrace init parse compile print wf_syntax.
